@@ -183,7 +183,20 @@ def cached_build_and_run(cfg, modules, keep_src, hostile=False, miri=False):
                 return pickle.load(fh)
         except Exception:
             pass
-    res = probe.build_and_run(cfg, modules, runner.REPO, runner.SCRATCH_ROOT, keep_src, hostile, miri)
+    with runner.lock(os.path.basename(key)):
+        if os.path.exists(key) and not keep_src:
+            try:
+                with gzip.open(key, 'rb') as fh:
+                    return pickle.load(fh)
+            except Exception:
+                pass
+        res = probe.build_and_run(cfg, modules, runner.REPO, runner.SCRATCH_ROOT, keep_src, hostile, miri)
+        _store(key, res)
+    return res
+
+
+def _store(key, res):
+    import gzip, pickle, threading
     os.makedirs(runner.CACHE, exist_ok=True)
     import threading
     tmp = key + '.tmp%d.%d' % (os.getpid(), threading.get_ident())
